@@ -316,6 +316,63 @@ theorem old_buffer_demotion_counterexample :
   simp [roundTripOld, swapOld, swapEntriesWith, setTensorOld, setTensorWith, h0, Dict.get?, Dict.pop,
     placeOld, Dict.set, Option.join, Heap.upd, cellAt, Mod.cell]
 
+/-! ## order: entries that stay in their dict are replaced in place -/
+
+theorem dict_set_set_get {α : Type} : ∀ (d : Dict α) (k : Name) (v0 v : α), Dict.get? d k = some v0 →
+    Dict.set (Dict.set d k v) k v0 = d
+  | [], _, _, _, h => by simp [Dict.get?] at h
+  | (k', v') :: r, k, v0, v, h => by
+    simp only [Dict.get?] at h
+    by_cases hk : k' = k
+    · subst hk
+      simp only [if_true, Option.some.injEq] at h
+      subst h
+      simp [Dict.set]
+    · simp only [hk, if_false] at h
+      simp only [Dict.set, hk, if_false]
+      rw [dict_set_set_get r k v0 v h]
+
+theorem dict_set_keys {α : Type} : ∀ (d : Dict α) (k : Name) (v0 v : α), Dict.get? d k = some v0 →
+    (Dict.set d k v).map (·.1) = d.map (·.1)
+  | [], _, _, _, h => by simp [Dict.get?] at h
+  | (k', v') :: r, k, v0, v, h => by
+    simp only [Dict.get?] at h
+    by_cases hk : k' = k
+    · subst hk
+      simp only [Dict.set, if_true, List.map_cons]
+    · simp only [hk, if_false] at h
+      simp only [Dict.set, hk, if_false, List.map_cons]
+      rw [dict_set_keys r k v0 v h]
+
+/-- **set_tensor_in_place_exact** — a Parameter swapped into a `_parameters` slot and the original swapped back: the
+module is *the same* afterwards, field by field — the same dicts in the same order (so `parameters()`, `state_dict()`,
+optimizer groups keep their order although only some entries were touched), nothing popped and re-appended. -/
+theorem set_tensor_in_place_exact (md : Mod) (n : Name) (t out : Tn)
+    (hslot : Dict.get? md.params n = some (some out)) (ht : t.isParam = true) (ho : out.isParam = true)
+    (hl : t.lazy = false) (hlo : out.lazy = false) :
+    ∃ md1, setTensorNative md n t = .ok (md1, out) ∧ setTensorNative md1 n out = .ok (md, t) ∧
+      md1.params.map (·.1) = md.params.map (·.1) := by
+  have hj : (Dict.get? md.params n).join = some out := by rw [hslot]; rfl
+  have hj1 : (Dict.get? (md.params.set n (some t)) n).join = some t := by
+    rw [Dict.get?_set, if_pos rfl]; rfl
+  refine ⟨{ md with params := md.params.set n (some t) }, ?_, ?_, dict_set_keys md.params n (some out) (some t) hslot⟩
+  · simp only [setTensorNative, hj, ht, if_true, hl]
+    simp
+  · simp only [setTensorNative, hj1, ho, if_true, hlo]
+    simp [dict_set_set_get md.params n (some out) (some t) hslot]
+
+/-- the same for a `_buffers` slot, whatever the class of the incoming tensor -/
+theorem set_tensor_buffer_in_place_exact (md : Mod) (n : Name) (t out : Tn)
+    (hp : (Dict.get? md.params n).join = none) (hslot : Dict.get? md.buffers n = some (some out)) :
+    ∃ md1, setTensorNative md n t = .ok (md1, out) ∧ setTensorNative md1 n out = .ok (md, t) := by
+  have hb : (Dict.get? md.buffers n).join = some out := by rw [hslot]; rfl
+  have hb1 : (Dict.get? (md.buffers.set n (some t)) n).join = some t := by
+    rw [Dict.get?_set, if_pos rfl]; rfl
+  refine ⟨{ md with buffers := md.buffers.set n (some t) }, ?_, ?_⟩
+  · simp only [setTensorNative, hp, hb]
+  · simp only [setTensorNative, hp, hb1]
+    simp [dict_set_set_get md.buffers n (some out) (some t) hslot]
+
 /-! ## `return_swap=False` -/
 
 def LeavesOnly : List (Name × PTree) → Prop
